@@ -23,8 +23,16 @@ func H_C12_delete() {
 		s := symStringN("cfgv", 1)
 		c.Cfg = &s
 	}
-	if du32Set || dstrSet {
+	// enum leaves (plain int64 fields in the GoStruct): one inside /c/d, one directly in /c
+	dcolSet, colSet := symBool("dcol"), symBool("col")
+	if colSet {
+		c.Col = V_Colour_RED
+	}
+	if du32Set || dstrSet || dcolSet {
 		c.D = &V_C_D{}
+		if dcolSet {
+			c.D.Dcol = V_Colour_GREEN
+		}
 		if du32Set {
 			u := symUint32("du32v")
 			c.D.Du32 = &u
@@ -116,7 +124,9 @@ func H_C12_delete() {
 	keep(target != 1 && target != 2 && b.D != nil && b.D.Du32 != nil, c.D != nil && c.D.Du32 != nil && *c.D.Du32 == *b.D.Du32, "/c/d/du32 must keep its value")
 	keep(target != 1 && b.D != nil && b.D.Dstr != nil, c.D != nil && c.D.Dstr != nil && *c.D.Dstr == "ab", "/c/d/dstr must keep its value")
 	keep(target == 1, c.D == nil, "/c/d must be gone")
-	keep(target == 2 && !(b.D != nil && b.D.Dstr != nil), c.D == nil, "/c/d must be removed once its last leaf is deleted")
+	keep(target == 2 && !(b.D != nil && b.D.Dstr != nil) && !dcolSet, c.D == nil, "/c/d must be removed once its last leaf is deleted")
+	keep(target != 1 && dcolSet, c.D != nil && c.D.Dcol == V_Colour_GREEN, "an enum leaf next to the deleted leaf must keep its value")
+	keep(colSet, c.Col == V_Colour_RED, "an enum leaf of a container on the way to the deleted path must keep its value")
 	keep(target != 5 && b.Ks["b"] != nil, c.Ks["b"] != nil && *c.Ks["b"].Name == "b", "list entry b must stay")
 	keep(target == 3 || target == 5, c.Ks["a"] == nil, "list entry a must be gone")
 	keep(target == 5, len(c.Ks) == 0, "the whole list must be gone")
